@@ -80,6 +80,10 @@ func c14(c *an.Ctx) {
 		ruleUnionMemberSelection(c, o)
 	})
 
+	c.Check("R-POST", "lists where lists are advertised: the leaf and list resolvers settle every destination, a skipped one would be serialised as null (rule shared with C01)", 3, func(o *an.O) {
+		ruleDestinationsSettled(c, o)
+	})
+
 	c.Check("R-SIBLING", "a validated query cannot reach the same-alias merge with selections of different fields (rule shared with C15)", 8, func(o *an.O) {
 		ruleSameAliasAgreement(c, o)
 	})
